@@ -1,6 +1,6 @@
 (* Rounding and angle-normalisation lemmas over the reals (R instance of NumOps) used by the C16 round-trip theorems. *)
 From Coq Require Import Reals QArith Qreals Lra Lia ZArith.
-From SpdVerif Require Import Base.Rx Base.NumOps Model.NumInst Spec.ConfigSpec Gen.ConfigTables Spec.ConfigUnits.
+From SpdVerif Require Import Base.Rx Base.CfgNumOps Model.NumInst Spec.ConfigSpec Gen.ConfigTables Spec.ConfigUnits.
 Local Open Scope R_scope.
 
 Lemma Rabs_le_inv a b : Rabs a <= b -> - b <= a <= b.
